@@ -356,11 +356,17 @@ func ParseContractFile(path, pkgPath string) (*ContractFile, error) {
 			k2, r3 := splitWord(r2)
 			switch k2 {
 			case "invariant":
+				var iprops []string
+				for strings.HasPrefix(strings.TrimSpace(r3), "@") {
+					w1, r1 := splitWord(strings.TrimSpace(r3))
+					iprops = append(iprops, strings.TrimPrefix(w1, "@"))
+					r3 = r1
+				}
 				e, err := ParseSpecExpr(r3)
 				if err != nil {
 					return nil, fail(err)
 				}
-				ls.Invariants = append(ls.Invariants, Clause{Text: r3, E: e, Line: rc.line, File: path})
+				ls.Invariants = append(ls.Invariants, Clause{Text: r3, E: e, Line: rc.line, File: path, Props: iprops})
 			case "assert":
 				// proved at the end of the loop body (before the post statement), then assumed;
 				// pre(e) refers to the value of e at the head of the current iteration
